@@ -493,6 +493,9 @@ struct ConnPlan {
     /// requests from this index on are held back until the earlier ones were answered and the connection has
     /// been idle for most of its idle timeout
     late_from: Option<usize>,
+    /// a requester that is slow to read: (capacity of the pipe in octets, milliseconds before it starts reading);
+    /// longer than the idle timeout, well inside the response write timeout
+    slow_reader: Option<(usize, u64)>,
 }
 
 #[derive(Debug, Default)]
@@ -503,7 +506,7 @@ struct ConnOut {
 }
 
 async fn run_conn(tx: mpsc::UnboundedSender<(DuplexStream, SocketAddr)>, addr: SocketAddr, plan: ConnPlan, seed: u64) -> ConnOut {
-    let (mut client, server) = tokio::io::duplex(1 << 20);
+    let (mut client, server) = tokio::io::duplex(plan.slow_reader.map(|s| s.0).unwrap_or(1 << 20));
     if tx.send((server, addr)).is_err() {
         return ConnOut::default();
     }
@@ -563,6 +566,9 @@ async fn run_conn(tx: mpsc::UnboundedSender<(DuplexStream, SocketAddr)>, addr: S
                 break;
             }
         }
+    }
+    if let Some((_, ms)) = plan.slow_reader {
+        tokio::time::sleep(Duration::from_millis(ms)).await;
     }
     // read whatever comes until the server closes or nothing arrives for a while
     loop {
@@ -630,19 +636,27 @@ fn stream_case(c: &mut Ctx, fam: &str, idx: u64) {
         } else {
             None
         };
-        plans.push((ConnPlan { reqs, abort_after, chunk: *rng.pick(&[1usize, 2, 7, 64, 100_000]), raw_tail, late_from: None }, addr));
+        plans.push((ConnPlan { reqs, abort_after, chunk: *rng.pick(&[1usize, 2, 7, 64, 100_000]), raw_tail, late_from: None, slow_reader: None }, addr));
     }
     // a connection whose second request arrives late in the idle window and takes the service a while
     if rng.chance(1, 3) {
         let addr: SocketAddr = "203.0.113.77:40077".parse().unwrap();
         let fast = mk_req(rng.u16(), "s1", 77001, None);
         let slow = mk_req(rng.u16(), &format!("w{}", rng.range(600, 1500)), 77002, None);
-        plans.push((ConnPlan { reqs: vec![fast, slow], abort_after: None, chunk: 100_000, raw_tail: None, late_from: Some(1) }, addr));
+        plans.push((ConnPlan { reqs: vec![fast, slow], abort_after: None, chunk: 100_000, raw_tail: None, late_from: Some(1), slow_reader: None }, addr));
+    }
+    // a requester that takes its time to read: responses larger than the pipe stay half written for longer than the
+    // idle timeout (3 s) but far less than the response write timeout (30 s); every frame must still arrive whole
+    if rng.chance(1, 3) {
+        let addr: SocketAddr = "203.0.113.88:40088".parse().unwrap();
+        let k = rng.range(1, 4);
+        let reqs: Vec<Req> = (0..k).map(|j| mk_req(rng.u16(), &format!("s{}", if rng.chance(1, 4) { rng.range(600, 1100) } else { rng.range(15, 60) }), 88001 + j, None)).collect();
+        plans.push((ConnPlan { reqs, abort_after: None, chunk: 100_000, raw_tail: None, late_from: None, slow_reader: Some((*rng.pick(&[128usize, 512, 4096]), rng.range(3500, 20000) as u64)) }, addr));
     }
     // the probe connection
     let probe_addr: SocketAddr = "198.51.100.9:5353".parse().unwrap();
-    plans.push((ConnPlan { reqs: vec![mk_req(rng.u16(), "s2", 99999, None)], abort_after: None, chunk: 100_000, raw_tail: None, late_from: None }, probe_addr));
-    let ex = json!({"connections": plans.iter().map(|(p, a)| json!({"addr": a.to_string(), "abort_after": p.abort_after, "chunk": p.chunk, "tail": p.raw_tail.as_ref().map(|t| hex(t)), "requests": p.reqs.iter().map(|r| json!({"what": r.what, "wire": hex(&r.wire)})).collect::<Vec<_>>()})).collect::<Vec<_>>()});
+    plans.push((ConnPlan { reqs: vec![mk_req(rng.u16(), "s2", 99999, None)], abort_after: None, chunk: 100_000, raw_tail: None, late_from: None, slow_reader: None }, probe_addr));
+    let ex = json!({"connections": plans.iter().map(|(p, a)| json!({"addr": a.to_string(), "abort_after": p.abort_after, "chunk": p.chunk, "slow_reader": p.slow_reader.map(|s| vec![s.0 as u64, s.1]), "tail": p.raw_tail.as_ref().map(|t| hex(t)), "requests": p.reqs.iter().map(|r| json!({"what": r.what, "wire": hex(&r.wire)})).collect::<Vec<_>>()})).collect::<Vec<_>>()});
     let rt = tokio::runtime::Builder::new_current_thread().enable_all().start_paused(true).build().unwrap();
     let plans2 = plans.clone();
     let seed = c.seed ^ idx;
@@ -748,6 +762,10 @@ fn stream_case(c: &mut Ctx, fam: &str, idx: u64) {
                     format!("stream-responses:{}:{}", kind, if got < want { "missing" } else { "extra" })
                 };
                 c.violation(&sig, &format!("connection {} request {} ({}): {} responses, expected {}{}", ci, i, r.what, got, want, if any_hostile { " (the connection also carried hostile input after it)" } else { "" }), rp(c, json!({})));
+                if sig.starts_with("stream-response-dropped:") {
+                    // a recorded finding about this one request; the rest of the case is judged as usual
+                    continue;
+                }
                 return;
             }
             let fs = &per_req[&i];
@@ -784,9 +802,168 @@ fn stream_case(c: &mut Ctx, fam: &str, idx: u64) {
         if plan.late_from.is_some() {
             c.count("stream_late_requests_answered", 1);
         }
+        if plan.slow_reader.is_some() {
+            c.count("stream_slow_readers_served", 1);
+        }
         c.count("stream_connections_checked", 1);
     }
     c.count("stream_cases", 1);
+}
+
+
+// ------------------------------------------------------ connection churn ----
+
+/// A listener whose handshake can fail (as a TLS acceptor's does): `None` is a connection that
+/// was accepted but whose stream never materialises.
+struct ChurnListener {
+    rx: Mutex<mpsc::UnboundedReceiver<(Option<DuplexStream>, SocketAddr)>>,
+}
+
+impl AsyncAccept for ChurnListener {
+    type Error = io::Error;
+    type StreamType = DuplexStream;
+    type Future = Ready<Result<DuplexStream, io::Error>>;
+    fn poll_accept(&self, cx: &mut Context<'_>) -> Poll<io::Result<(Self::Future, SocketAddr)>> {
+        match self.rx.lock().unwrap().poll_recv(cx) {
+            Poll::Ready(Some((Some(s), a))) => Poll::Ready(Ok((ready(Ok(s)), a))),
+            Poll::Ready(Some((None, a))) => Poll::Ready(Ok((ready(Err(io::Error::new(io::ErrorKind::ConnectionAborted, "handshake failed"))), a))),
+            Poll::Ready(None) => Poll::Pending,
+            Poll::Pending => Poll::Pending,
+        }
+    }
+}
+
+/// Connections come and go, one or two at a time, on a server that allows only a few at once:
+/// whatever way a connection ends (served and closed, aborted mid-request, hostile octets, a
+/// handshake that fails, left to its idle timeout), its place must be free again afterwards —
+/// otherwise a patient attacker, or just time, locks every later requester out.
+fn churn_case(c: &mut Ctx, fam: &str, idx: u64) {
+    let mut rng = c.case_rng(fam, idx);
+    let limit = rng.range(2, 5);
+    let rounds = limit * 2 + rng.range(1, 6);
+    // kinds: 0 served, 1 aborted mid-request, 2 hostile octets, 3 failed handshake, 4 left idle until the server closes it, 5 closed without a word
+    let kinds: Vec<usize> = (0..rounds).map(|_| *rng.pick(&[0usize, 0, 1, 2, 3, 3, 4, 5])).collect();
+    let ex = json!({"max_concurrent_connections": limit, "connections": kinds});
+    let rt = tokio::runtime::Builder::new_current_thread().enable_all().start_paused(true).build().unwrap();
+    let kinds2 = kinds.clone();
+    let seed = c.seed ^ idx;
+    let _ = ctx::take_any_panic();
+    let res = ctx::catch(|| {
+        rt.block_on(async move {
+            let (tx, rx) = mpsc::unbounded_channel();
+            let mut cfg = stream::Config::new();
+            cfg.set_max_concurrent_connections(limit);
+            let mut cc = ConnectionConfig::new();
+            cc.set_idle_timeout(Duration::from_secs(3));
+            cfg.set_connection_config(cc);
+            let srv = Arc::new(StreamServer::with_config(ChurnListener { rx: Mutex::new(rx) }, VecBufSource, stack(false), cfg));
+            let s2 = srv.clone();
+            let h = tokio::spawn(async move { s2.run().await });
+            let mut rng = Rng::new(&[seed, 16]);
+            // (kind, frames received, eof seen)
+            let mut outs: Vec<(usize, usize, bool)> = Vec::new();
+            for (i, k) in kinds2.iter().chain(std::iter::once(&0usize)).enumerate() {
+                let addr: SocketAddr = format!("203.0.113.{}:{}", 1 + (i % 200), 41000 + i).parse().unwrap();
+                if *k == 3 {
+                    let _ = tx.send((None, addr));
+                    tokio::time::sleep(Duration::from_millis(20)).await;
+                    outs.push((3, 0, false));
+                    continue;
+                }
+                let (mut client, server) = tokio::io::duplex(1 << 16);
+                let _ = tx.send((Some(server), addr));
+                let r = mk_req(rng.u16(), "s3", 5000 + i, None);
+                let mut frame = (r.wire.len() as u16).to_be_bytes().to_vec();
+                frame.extend_from_slice(&r.wire);
+                let mut got = 0usize;
+                let mut eof = false;
+                match *k {
+                    1 => {
+                        let cut = 1 + rng.below(frame.len() - 1);
+                        let _ = client.write_all(&frame[..cut]).await;
+                        tokio::time::sleep(Duration::from_millis(rng.range(0, 50) as u64)).await;
+                    }
+                    2 => {
+                        let junk = match rng.below(3) { 0 => vec![0u8, 0], 1 => vec![0, 3, 1, 2, 3], _ => rng.bytes(40) };
+                        let _ = client.write_all(&junk).await;
+                        tokio::time::sleep(Duration::from_millis(100)).await;
+                    }
+                    5 => {
+                        tokio::time::sleep(Duration::from_millis(rng.range(0, 30) as u64)).await;
+                    }
+                    _ => {
+                        let _ = client.write_all(&frame).await;
+                        let mut buf = Vec::new();
+                        let mut tmp = [0u8; 4096];
+                        let wait = if *k == 4 { 6000 } else { 1500 };
+                        loop {
+                            match tokio::time::timeout(Duration::from_millis(wait), client.read(&mut tmp)).await {
+                                Ok(Ok(0)) => {
+                                    eof = true;
+                                    break;
+                                }
+                                Ok(Ok(n)) => {
+                                    buf.extend_from_slice(&tmp[..n]);
+                                    if *k == 0 && buf.len() >= 2 && buf.len() >= 2 + u16::from_be_bytes([buf[0], buf[1]]) as usize {
+                                        break;
+                                    }
+                                }
+                                _ => break,
+                            }
+                        }
+                        let mut q = 0;
+                        while q + 2 <= buf.len() {
+                            let l = u16::from_be_bytes([buf[q], buf[q + 1]]) as usize;
+                            if q + 2 + l > buf.len() {
+                                break;
+                            }
+                            got += 1;
+                            q += 2 + l;
+                        }
+                    }
+                }
+                drop(client);
+                // the server notices the end of the connection
+                tokio::time::sleep(Duration::from_millis(200)).await;
+                outs.push((*k, got, eof));
+            }
+            let alive = !h.is_finished();
+            let _ = srv.shutdown();
+            let _ = tokio::time::timeout(Duration::from_secs(10), h).await;
+            (outs, alive)
+        })
+    });
+    drop(rt);
+    let (outs, alive) = match res {
+        Ok(x) => x,
+        Err(pi) => {
+            c.violation(&format!("panic:{}", pi.site()), &format!("panic in the stream server: {} at {}:{}", pi.msg, pi.file, pi.line), c.replay_of(fam, idx, ex));
+            return;
+        }
+    };
+    if let Some(pi) = ctx::take_any_panic() {
+        c.violation(&format!("panic:{}", pi.site()), &format!("a task of the stream server panicked: {} at {}:{}", pi.msg, pi.file, pi.line), c.replay_of(fam, idx, ex));
+        return;
+    }
+    if !alive {
+        c.violation("stream-server-stopped", "the stream server's run() returned while connections were being served", c.replay_of(fam, idx, ex));
+        return;
+    }
+    let last = outs.len() - 1;
+    for (i, (k, got, _eof)) in outs.iter().enumerate() {
+        if matches!(*k, 0 | 4) && *got != 1 {
+            // which kinds of endings came before it
+            let mut before: Vec<&str> = outs[..i].iter().map(|o| ["served", "aborted", "hostile", "failed-handshake", "idled-out", "closed-silently"][o.0]).collect();
+            before.sort();
+            before.dedup();
+            let sig = if i == last { "stream-churn:probe-unanswered" } else { "stream-churn:request-unanswered" };
+            c.violation(sig, &format!("connection {} of a sequence in which never more than one connection is open at a time got {} responses to its one request; the server allows {} concurrent connections; earlier connections ended as: {:?}", i, got, limit, before), c.replay_of(fam, idx, ex.clone()));
+            return;
+        }
+        c.count(&format!("churn_connections:{}", ["served", "aborted", "hostile", "failed-handshake", "idled-out", "closed-silently"][*k]), 1);
+    }
+    c.eval(&("churn", limit, kinds.iter().fold(0u32, |a, k| a | 1 << k), rounds));
+    c.count("churn_cases", 1);
 }
 
 /// A service that says it is EDNS aware in every response, whatever the request looked like.
@@ -916,7 +1093,16 @@ fn udp_bare_case(c: &mut Ctx, fam: &str, idx: u64) {
 }
 
 pub fn run(c: &mut Ctx) {
-    c.families(3);
+    c.families(4);
+    let fam = "stream-churn";
+    let total = c.total(3_000, 100_000);
+    for idx in c.cases(fam, total) {
+        if c.out_of_time() {
+            break;
+        }
+        ctx::slot_write(idx, "C16 stream-churn", &[]);
+        churn_case(c, fam, idx);
+    }
     let fam = "udp-bare";
     let total = c.total(4_000, 100_000);
     for idx in c.cases(fam, total) {
@@ -945,7 +1131,7 @@ pub fn run(c: &mut Ctx) {
         stream_case(c, fam, idx);
     }
     if !c.replaying() {
-        for k in ["udp_cases", "udp_complete_answers", "udp_truncated_answers", "udp_hostile_requests", "udp_service_failures_answered", "stream_cases", "stream_connections_checked", "stream_multi_responses", "stream_aborted_connections", "udp_bare_no_edns_truncated", "udp_bare_no_edns_complete"] {
+        for k in ["udp_cases", "udp_complete_answers", "udp_truncated_answers", "udp_hostile_requests", "udp_service_failures_answered", "stream_cases", "stream_connections_checked", "stream_multi_responses", "stream_aborted_connections", "udp_bare_no_edns_truncated", "udp_bare_no_edns_complete", "stream_slow_readers_served", "churn_cases", "churn_connections:failed-handshake", "churn_connections:aborted", "churn_connections:idled-out"] {
             c.floor(k, 3);
         }
     }
